@@ -3,7 +3,8 @@
 <root>/out/<id>/prompt.txt for independent sub-agents (given only the property text; nothing from /verif)."""
 import json, os, subprocess, sys
 root = sys.argv[1]
-ids = sys.argv[2:]
+ids = [a for a in sys.argv[2:] if not a.startswith("--")]
+AIO = "--aio" in sys.argv   # steer towards the asyncio front end (only for properties that cover it)
 VERIF = os.path.dirname(os.path.dirname(os.path.abspath(__file__)))
 props = {json.loads(l)["id"]: json.loads(l) for l in open(os.path.join(VERIF, "properties.jsonl"))}
 for pid in ids:
@@ -35,7 +36,7 @@ The semantic property that your change must BREAK:
 Task: make a small, realistic source change inside {wt}/scheduler/ (the kind of slip a maintainer could make in a refactor, an optimisation or a "fix") such that
   (a) the package still imports and the whole existing test suite still passes (run it, all of it), and
   (b) the property above is violated, but only under something specific - a particular multi-step sequence of operations, an unusual input (specific offsets, boundary instants, particular flag combinations), a particular interleaving, or two cooperating code sites that each look fine alone. Do NOT choose a change that ordinary use would expose at once; prefer subtle changes that affect a corner of the input space.
-{ex}Do not edit tests. Do not add new files inside scheduler/.
+{ex}{"The property covers the asyncio front end (scheduler/asyncio/) too: place your change so that it shows in the asyncio front end (it may or may not also show in the threading one)." + chr(10) if AIO else ""}Do not edit tests. Do not add new files inside scheduler/.
 
 Deliver, in the directory {out}/ :
   1. patch.diff  - the output of `git -C {wt} diff`,
